@@ -107,7 +107,7 @@ PROPS = {
     "C17": [("ChangeMapping.v", r"."), ("ChangeMappingF.v", r"."), ("C10.v", r"^rescale_"), ("Misc.v", r"^C17_f_")],
     "C18": [("C18.v", r".")],
     "C19": [("C19real.v", r"."), ("C19.v", r"."), ("Glue.v", r"build_float64|decompose|f_of_int"), ("Bridge.v", r"Bridge_with_.*rebuild|Bridge_with_gamma_fields|Bridge_with_accuracy_is")],
-    "C20": [("C20.v", r"."), ("Instance.v", r"^I_C20_"), ("Sketch3.v", r"^C20_|^I_C20_")],
+    "C20": [("C20.v", r"."), ("Instance.v", r"^I_C20_"), ("Sketch3.v", r"^C20_|^I_C20_"), ("C20sum.v", r"^C20_sum_")],
 }
 
 def closure_key(rel):
